@@ -105,6 +105,14 @@ fn witnesses() -> Vec<(&'static str, &'static str, &'static str)> {
 /// only consistent answer is a diagnostic (accepting means one entity is dropped or redeclared)
 fn duplicates() -> Vec<(&'static str, &'static str)> {
     vec![
+        // one binder spelled twice in one pattern or one closure parameter list: which one a use means is anybody's guess
+        ("tuple-pattern-binders", "fn main() { let (b, b) = (1, 2); string_println(int32_to_string(b)) }\n"),
+        ("nested-tuple-pattern-binders", "fn main() { let ((a, b), a) = ((1, 2), 3); string_println(int32_to_string(a + b)) }\n"),
+        ("match-arm-tuple-binders", "fn main() { let r = match (1, 2) { (a, a) => a }; string_println(int32_to_string(r)) }\n"),
+        ("constructor-pattern-binders", "enum Ep { Ap(int32, int32), Bp }\nfn main() { let r = match Ap(1, 2) { Ap(a, a) => a, Bp => 0 }; string_println(int32_to_string(r)) }\n"),
+        ("struct-pattern-binders", "struct Sp { p: int32, q: int32 }\nfn main() { let Sp { p: k, q: k } = Sp { p: 1, q: 2 }; string_println(int32_to_string(k)) }\n"),
+        ("closure-parameters", "fn main() { let f = |q: int32, q: int32| q; string_println(int32_to_string(f(1, 2))) }\n"),
+        ("closure-parameters-unannotated", "fn main() { let f = |q, q| q + 1; string_println(int32_to_string(f(1, 2))) }\n"),
         ("fn-fn", "fn zzq() -> int32 { 1 }\nfn zzq() -> int32 { 2 }\nfn main() { string_println(int32_to_string(zzq())) }\n"),
         ("fn-fn-other-signature", "fn zzq() -> int32 { 1 }\nfn zzq(a: int32) -> int32 { a }\nfn main() { string_println(int32_to_string(zzq())) }\n"),
         ("struct-struct", "struct Zq { a: int32 }\nstruct Zq { b: bool }\nfn main() { let s = Zq { b: true }; string_println(bool_to_string(s.b)) }\n"),
@@ -246,7 +254,7 @@ impl Family for NamesFamily {
         &["C19", "C02", "C04"]
     }
     fn rule(&self) -> &'static str {
-        "90 hostile identifiers (Go keywords that goml allows, predeclared identifiers, runtime helper names, the builtins expanded at their call sites, compiler temporaries, generated type/helper names, spellings of the compiler's own type representation, the entry point's names, mangling look-alikes such as a__0) x 17 roles (fn / struct / variant of an imported package, fn, param, local, pattern variable, closure parameter, struct, field, enum, variant, trait, method, type parameter, fn next to temporaries, fn called from a closure) plus 14 collision witnesses for generated names, plus 21 programs declaring two entities of one name in one namespace (functions, types, traits, parameters of functions/methods/impl methods, variants, fields, extern vs fn, methods of one impl) that must be rejected, plus 29 programs of nested matches on two enum-typed variables (every word of length <= 4 over {x, y} beginning with x as the scrutinees from the outside in; the innermost level also inside a closure called at once) and 7 programs in which re-matches of the variable stand next to each other inside an arm of a match on it (with a match on the other variable, an if or a closure between or around them), whose Go type switches rebind the scrutinee's identifier inside their cases; oracle: emitted Go passes the Go checker and prints exactly what the twin with a benign identifier prints (= the hard-wired expected output). non-trivial = cases whose hostile name survives into the Go text unescaped or mangled; distinct = distinct source text"
+        "90 hostile identifiers (Go keywords that goml allows, predeclared identifiers, runtime helper names, the builtins expanded at their call sites, compiler temporaries, generated type/helper names, spellings of the compiler's own type representation, the entry point's names, mangling look-alikes such as a__0) x 17 roles (fn / struct / variant of an imported package, fn, param, local, pattern variable, closure parameter, struct, field, enum, variant, trait, method, type parameter, fn next to temporaries, fn called from a closure) plus 14 collision witnesses for generated names, plus 28 programs declaring two entities of one name in one namespace (functions, types, traits, parameters of functions/methods/impl methods, variants, fields, extern vs fn, methods of one impl, one binder twice in a tuple / nested / constructor / struct pattern or in a closure's parameter list) that must be rejected, plus 29 programs of nested matches on two enum-typed variables (every word of length <= 4 over {x, y} beginning with x as the scrutinees from the outside in; the innermost level also inside a closure called at once) and 7 programs in which re-matches of the variable stand next to each other inside an arm of a match on it (with a match on the other variable, an if or a closure between or around them), whose Go type switches rebind the scrutinee's identifier inside their cases; oracle: emitted Go passes the Go checker and prints exactly what the twin with a benign identifier prints (= the hard-wired expected output). non-trivial = cases whose hostile name survives into the Go text unescaped or mangled; distinct = distinct source text"
     }
     fn cases(&self, _tier: Tier) -> Box<dyn Iterator<Item = Value> + '_> {
         let mut v = Vec::new();
